@@ -24,6 +24,9 @@ Proof. induction 1; cbn; lia. Qed.
 
 Notation cp := canon_pick.
 
+Lemma cp_len env e0 e1 : R env e0 e1 -> forall a b, cp e1 a = cp e0 b.
+Proof. intros H a b. unfold canon_pick. now destruct (R_length _ _ _ H) as [-> ->]. Qed.
+
 Lemma R_bind pick env e0 e1 x :
   R env e0 e1 -> R (bind pick env x) (bind cp e0 x) (bind cp e1 (pick env x)).
 Proof.
@@ -109,6 +112,32 @@ Qed.
 Section Main.
 Variable pick : renv -> name -> name.
 
+Ltac fold_ren pk :=
+  fold (ren_ty pk) (ren_expr pk) (ren_iseg pk) (ren_ebranch pk) (ren_args pk) (ren_tentry pk)
+       (ren_fbody pk) (ren_stmt pk) (ren_sbranch pk) (ren_block pk) (ren_last pk).
+Ltac fold_ao pk H :=
+  fold (ao_ty pk occ_ok) (ao_expr pk occ_ok) (ao_iseg pk occ_ok) (ao_ebranch pk occ_ok) (ao_args pk occ_ok)
+       (ao_tentry pk occ_ok) (ao_fbody pk occ_ok) (ao_stmt pk occ_ok) (ao_sbranch pk occ_ok)
+       (ao_block pk occ_ok) (ao_last pk occ_ok) in H.
+Ltac fold_ren_in pk H :=
+  fold (ren_ty pk) (ren_expr pk) (ren_iseg pk) (ren_ebranch pk) (ren_args pk) (ren_tentry pk)
+       (ren_fbody pk) (ren_stmt pk) (ren_sbranch pk) (ren_block pk) (ren_last pk) in H.
+Ltac unfren_in H :=
+  cbn [ren_ty ren_expr ren_iseg ren_ebranch ren_args ren_tentry ren_fbody ren_stmt ren_sbranch ren_block ren_last] in H;
+  fold_ren_in pick H; fold_ren_in canon_pick H.
+Ltac unfao_goal :=
+  cbn [ao_ty ao_expr ao_iseg ao_ebranch ao_args ao_tentry ao_fbody ao_stmt ao_sbranch ao_block ao_last];
+  fold (ao_ty pick occ_ok) (ao_expr pick occ_ok) (ao_iseg pick occ_ok) (ao_ebranch pick occ_ok) (ao_args pick occ_ok)
+       (ao_tentry pick occ_ok) (ao_fbody pick occ_ok) (ao_stmt pick occ_ok) (ao_sbranch pick occ_ok)
+       (ao_block pick occ_ok) (ao_last pick occ_ok).
+Ltac unfren :=
+  cbn [ren_ty ren_expr ren_iseg ren_ebranch ren_args ren_tentry ren_fbody ren_stmt ren_sbranch ren_block ren_last];
+  fold_ren pick; fold_ren canon_pick.
+Ltac unfao H :=
+  cbn [ao_ty ao_expr ao_iseg ao_ebranch ao_args ao_tentry ao_fbody ao_stmt ao_sbranch ao_block ao_last] in H;
+  fold_ao pick H.
+
+
 Definition Q {A} (ao : renv -> A -> bool) (f : (renv -> name -> name) -> renv -> A -> A) (a : A) : Prop :=
   forall env e0 e1, R env e0 e1 -> ao env a = true -> f cp e1 (f pick env a) = f cp e0 a.
 
@@ -148,7 +177,7 @@ Lemma map_lift {A} (ao : renv -> A -> bool) (f : (renv -> name -> name) -> renv 
 Proof.
   intros F env e0 e1 HR. induction F as [|a l Ha F IH]; intros H; [reflexivity|].
   cbn [forallb] in H. apply andb_true_iff in H as [H1 H2]. cbn [map].
-  rewrite (Ha _ _ _ HR H1), (IH H2). reflexivity.
+  rewrite (Ha _ _ _ HR H1) by assumption. rewrite (IH H2) by assumption. reflexivity.
 Qed.
 
 Lemma opt_lift {A} (ao : renv -> A -> bool) (f : (renv -> name -> name) -> renv -> A -> A) o :
@@ -161,16 +190,18 @@ Qed.
 
 (** binder groups: names follow the growing environments, annotations the outer ones *)
 Lemma params_lift ps : Forall Pparam ps ->
-  forall envo e0o e1o, R envo e0o e1o -> ao_params (ao_ty pick occ_ok envo) ps = true ->
-  forall env e0 e1, R env e0 e1 ->
+  forall envo e0o e1o, R envo e0o e1o ->
+  forall env e0 e1, R env e0 e1 -> ao_params (ao_ty pick occ_ok envo) ps = true ->
   ren_params cp (ren_ty cp e1o) e1 (ren_params pick (ren_ty pick envo) env ps)
   = ren_params cp (ren_ty cp e0o) e0 ps.
 Proof.
-  intros F envo e0o e1o HRo. induction F as [|[x t] ps Hp F IH]; intros H env e0 e1 HR; [reflexivity|].
+  intros F envo e0o e1o HRo. induction F as [|[x t] ps Hp F IH]; intros env e0 e1 HR H; [reflexivity|].
   unfold ao_params in H. cbn [forallb] in H. apply andb_true_iff in H as [H1 H2].
-  cbn [ren_params]. rewrite (Hp _ _ _ HRo H1).
-  rewrite (IH H2 _ _ _ (R_bind pick _ _ _ x HR)).
-  unfold canon_pick at 1 3. destruct (R_length _ _ _ HR) as [-> ->]. reflexivity.
+  cbn [ren_params]. f_equal.
+  - f_equal.
+    + unfold canon_pick. destruct (R_length _ _ _ HR) as [-> ->]. reflexivity.
+    + apply (Hp _ _ _ HRo H1).
+  - apply (IH _ _ _ (R_bind pick _ _ _ x HR) H2).
 Qed.
 
 (** statement sequences *)
@@ -180,8 +211,8 @@ Proof.
   intros HR. destruct s; try exact HR.
   - cbn [stmt_env ren_stmt]. rewrite ren_params_names. now apply R_bind_all.
   - cbn [stmt_env ren_stmt]. now apply R_bind.
-  - cbn [ren_stmt]. destruct var. exact HR.
-  - cbn [ren_stmt]. destruct b. exact HR.
+  - unfren. destruct var. exact HR.
+  - unfren. destruct b. exact HR.
 Qed.
 
 Lemma seq_lift ss : Forall Pstmt ss -> forall env e0 e1, R env e0 e1 ->
@@ -198,6 +229,7 @@ Proof.
   split; [|exact HR']. rewrite (Hs _ _ _ HR H1), E. reflexivity.
 Qed.
 
+
 Ltac split_ands :=
   repeat match goal with
          | H : _ && _ = true |- _ => apply andb_true_iff in H; destruct H
@@ -206,8 +238,8 @@ Ltac split_ands :=
 (** the cases of the induction *)
 Lemma c_TyNode k subs es : Forall Pty subs -> Forall Pexpr es -> Pty (TyNode k subs es).
 Proof.
-  intros F1 F2 env e0 e1 HR H. cbn [ao_ty] in H. split_ands. cbn [ren_ty].
-  now rewrite (map_lift _ _ _ F1 _ _ _ HR), (map_lift _ _ _ F2 _ _ _ HR).
+  intros F1 F2 env e0 e1 HR H. unfao H. split_ands. unfren.
+  rewrite (map_lift _ _ _ F1 _ _ _ HR) by assumption. rewrite (map_lift _ _ _ F2 _ _ _ HR) by assumption. reflexivity.
 Qed.
 
 Lemma c_leaf e : (forall pk env, ren_expr pk env e = e) -> Pexpr e.
@@ -215,110 +247,109 @@ Proof. intros E env e0 e1 _ _. now rewrite !E. Qed.
 
 Lemma c_EInterp segs : Forall Piseg segs -> Pexpr (EInterp segs).
 Proof.
-  intros F env e0 e1 HR H. cbn [ao_expr] in H. cbn [ren_expr].
+  intros F env e0 e1 HR H. unfao H. unfren.
   now rewrite (map_lift _ _ _ F _ _ _ HR).
 Qed.
 
 Lemma c_EIdent x : Pexpr (EIdent x).
-Proof. intros env e0 e1 HR H. cbn [ao_expr] in H. cbn [ren_expr]. now rewrite (R_occ _ _ _ _ HR H). Qed.
+Proof. intros env e0 e1 HR H. unfao H. unfren. now rewrite (R_occ _ _ _ _ HR H). Qed.
 
 Lemma c_EField p f : Pexpr p -> Pexpr (EField p f).
-Proof. intros Hp env e0 e1 HR H. cbn [ao_expr] in H. cbn [ren_expr]. now rewrite (Hp _ _ _ HR H). Qed.
+Proof. intros Hp env e0 e1 HR H. unfao H. unfren. now rewrite (Hp _ _ _ HR H). Qed.
 
 Lemma c_EIndex p k : Pexpr p -> Pexpr k -> Pexpr (EIndex p k).
 Proof.
-  intros Hp Hk env e0 e1 HR H. cbn [ao_expr] in H. split_ands. cbn [ren_expr].
-  now rewrite (Hp _ _ _ HR), (Hk _ _ _ HR).
+  intros Hp Hk env e0 e1 HR H. unfao H. split_ands. unfren.
+  rewrite (Hp _ _ _ HR) by assumption. rewrite (Hk _ _ _ HR) by assumption. reflexivity.
 Qed.
 
 Lemma c_ECall p m a : Pexpr p -> Pargs a -> Pexpr (ECall p m a).
 Proof.
-  intros Hp Ha env e0 e1 HR H. cbn [ao_expr] in H. split_ands. cbn [ren_expr].
-  now rewrite (Hp _ _ _ HR), (Ha _ _ _ HR).
+  intros Hp Ha env e0 e1 HR H. unfao H. split_ands. unfren.
+  rewrite (Hp _ _ _ HR) by assumption. rewrite (Ha _ _ _ HR) by assumption. reflexivity.
 Qed.
 
 Lemma c_EFunction f : Pfbody f -> Pexpr (EFunction f).
-Proof. intros Hf env e0 e1 HR H. cbn [ao_expr] in H. cbn [ren_expr]. now rewrite (Hf false _ _ _ HR H). Qed.
+Proof. intros Hf env e0 e1 HR H. unfao H. unfren. now rewrite (Hf false _ _ _ HR H). Qed.
 
 Lemma c_EIf bs els : Forall Pebranch bs -> Pexpr els -> Pexpr (EIf bs els).
 Proof.
-  intros F He env e0 e1 HR H. cbn [ao_expr] in H. split_ands. cbn [ren_expr].
-  now rewrite (map_lift _ _ _ F _ _ _ HR), (He _ _ _ HR).
+  intros F He env e0 e1 HR H. unfao H. split_ands. unfren.
+  rewrite (map_lift _ _ _ F _ _ _ HR) by assumption. rewrite (He _ _ _ HR) by assumption. reflexivity.
 Qed.
 
 Lemma c_EParen e : Pexpr e -> Pexpr (EParen e).
-Proof. intros He env e0 e1 HR H. cbn [ao_expr] in H. cbn [ren_expr]. now rewrite (He _ _ _ HR H). Qed.
+Proof. intros He env e0 e1 HR H. unfao H. unfren. now rewrite (He _ _ _ HR H). Qed.
 
 Lemma c_ETable entries : Forall Ptentry entries -> Pexpr (ETable entries).
 Proof.
-  intros F env e0 e1 HR H. cbn [ao_expr] in H. cbn [ren_expr].
+  intros F env e0 e1 HR H. unfao H. unfren.
   now rewrite (map_lift _ _ _ F _ _ _ HR).
 Qed.
 
 Lemma c_EUnary op e : Pexpr e -> Pexpr (EUnary op e).
-Proof. intros He env e0 e1 HR H. cbn [ao_expr] in H. cbn [ren_expr]. now rewrite (He _ _ _ HR H). Qed.
+Proof. intros He env e0 e1 HR H. unfao H. unfren. now rewrite (He _ _ _ HR H). Qed.
 
 Lemma c_EBinary op l r : Pexpr l -> Pexpr r -> Pexpr (EBinary op l r).
 Proof.
-  intros Hl Hr env e0 e1 HR H. cbn [ao_expr] in H. split_ands. cbn [ren_expr].
-  now rewrite (Hl _ _ _ HR), (Hr _ _ _ HR).
+  intros Hl Hr env e0 e1 HR H. unfao H. split_ands. unfren.
+  rewrite (Hl _ _ _ HR) by assumption. rewrite (Hr _ _ _ HR) by assumption. reflexivity.
 Qed.
 
 Lemma c_ETypeCast e t : Pexpr e -> Pty t -> Pexpr (ETypeCast e t).
 Proof.
-  intros He Ht env e0 e1 HR H. cbn [ao_expr] in H. split_ands. cbn [ren_expr].
-  now rewrite (He _ _ _ HR), (Ht _ _ _ HR).
+  intros He Ht env e0 e1 HR H. unfao H. split_ands. unfren.
+  rewrite (He _ _ _ HR) by assumption. rewrite (Ht _ _ _ HR) by assumption. reflexivity.
 Qed.
 
 Lemma c_ETypeInst p tys : Pexpr p -> Forall Pty tys -> Pexpr (ETypeInst p tys).
 Proof.
-  intros Hp F env e0 e1 HR H. cbn [ao_expr] in H. split_ands. cbn [ren_expr].
-  now rewrite (Hp _ _ _ HR), (map_lift _ _ _ F _ _ _ HR).
+  intros Hp F env e0 e1 HR H. unfao H. split_ands. unfren.
+  rewrite (Hp _ _ _ HR) by assumption. rewrite (map_lift _ _ _ F _ _ _ HR) by assumption. reflexivity.
 Qed.
 
 Lemma c_ISStr s : Piseg (ISStr s).
 Proof. intros env e0 e1 _ _. reflexivity. Qed.
 Lemma c_ISExpr e : Pexpr e -> Piseg (ISExpr e).
-Proof. intros He env e0 e1 HR H. cbn [ao_iseg] in H. cbn [ren_iseg]. now rewrite (He _ _ _ HR H). Qed.
+Proof. intros He env e0 e1 HR H. unfao H. unfren. now rewrite (He _ _ _ HR H). Qed.
 
 Lemma c_EBranch c r : Pexpr c -> Pexpr r -> Pebranch (EBranch c r).
 Proof.
-  intros Hc Hr env e0 e1 HR H. cbn [ao_ebranch] in H. split_ands. cbn [ren_ebranch].
-  now rewrite (Hc _ _ _ HR), (Hr _ _ _ HR).
+  intros Hc Hr env e0 e1 HR H. unfao H. split_ands. unfren.
+  rewrite (Hc _ _ _ HR) by assumption. rewrite (Hr _ _ _ HR) by assumption. reflexivity.
 Qed.
 
 Lemma c_ATuple es : Forall Pexpr es -> Pargs (ATuple es).
 Proof.
-  intros F env e0 e1 HR H. cbn [ao_args] in H. cbn [ren_args]. now rewrite (map_lift _ _ _ F _ _ _ HR).
+  intros F env e0 e1 HR H. unfao H. unfren. now rewrite (map_lift _ _ _ F _ _ _ HR).
 Qed.
 Lemma c_AString s : Pargs (AString s).
 Proof. intros env e0 e1 _ _. reflexivity. Qed.
 Lemma c_ATable entries : Forall Ptentry entries -> Pargs (ATable entries).
 Proof.
-  intros F env e0 e1 HR H. cbn [ao_args] in H. cbn [ren_args]. now rewrite (map_lift _ _ _ F _ _ _ HR).
+  intros F env e0 e1 HR H. unfao H. unfren. now rewrite (map_lift _ _ _ F _ _ _ HR).
 Qed.
 
 Lemma c_TField f v : Pexpr v -> Ptentry (TField f v).
-Proof. intros Hv env e0 e1 HR H. cbn [ao_tentry] in H. cbn [ren_tentry]. now rewrite (Hv _ _ _ HR H). Qed.
+Proof. intros Hv env e0 e1 HR H. unfao H. unfren. now rewrite (Hv _ _ _ HR H). Qed.
 Lemma c_TIndex k v : Pexpr k -> Pexpr v -> Ptentry (TIndex k v).
 Proof.
-  intros Hk Hv env e0 e1 HR H. cbn [ao_tentry] in H. split_ands. cbn [ren_tentry].
-  now rewrite (Hk _ _ _ HR), (Hv _ _ _ HR).
+  intros Hk Hv env e0 e1 HR H. unfao H. split_ands. unfren.
+  rewrite (Hk _ _ _ HR) by assumption. rewrite (Hv _ _ _ HR) by assumption. reflexivity.
 Qed.
 Lemma c_TValue v : Pexpr v -> Ptentry (TValue v).
-Proof. intros Hv env e0 e1 HR H. cbn [ao_tentry] in H. cbn [ren_tentry]. now rewrite (Hv _ _ _ HR H). Qed.
+Proof. intros Hv env e0 e1 HR H. unfao H. unfren. now rewrite (Hv _ _ _ HR H). Qed.
 
 Lemma c_FBody ps va vt rt gen attrs body :
   Forall Pparam ps -> OptP Pty vt -> OptP Pty rt -> OptP Pty gen -> Pblock body ->
   Pfbody (FBody ps va vt rt gen attrs body).
 Proof.
-  intros Fp Hvt Hrt Hgen Hb ws env e0 e1 HR H. apply Pblock_Q in Hb. cbn [ao_fbody] in H. cbv zeta in H. split_ands.
-  cbn [ren_fbody]. cbv zeta.
+  intros Fp Hvt Hrt Hgen Hb ws env e0 e1 HR H. apply Pblock_Q in Hb. unfao H. cbv zeta in H. split_ands.
+  unfren. cbv zeta.
   assert (HR0 : R (if ws then bind_self env else env) (if ws then bind_self e0 else e0)
                   (if ws then bind_self e1 else e1)) by (destruct ws; [now apply R_self | exact HR]).
-  rewrite (params_lift ps Fp _ _ _ HR) by assumption.
-  2: exact HR0.
-  rewrite (opt_lift _ _ _ Hvt _ _ _ HR), (opt_lift _ _ _ Hrt _ _ _ HR), (opt_lift _ _ _ Hgen _ _ _ HR) by assumption.
+  rewrite (params_lift ps Fp _ _ _ HR _ _ _ HR0) by assumption.
+  rewrite (opt_lift _ _ _ Hvt _ _ _ HR) by assumption. rewrite (opt_lift _ _ _ Hrt _ _ _ HR) by assumption. rewrite (opt_lift _ _ _ Hgen _ _ _ HR) by assumption.
   rewrite ren_params_names.
   rewrite (Hb _ _ _ (R_bind_all pick (map param_name ps) _ _ _ HR0)) by assumption.
   reflexivity.
@@ -329,55 +360,55 @@ Proof. intros Ht env e0 e1 HR H. now apply (opt_lift _ _ _ Ht). Qed.
 
 Lemma c_SAssign vars vals : Forall Pexpr vars -> Forall Pexpr vals -> Pstmt (SAssign vars vals).
 Proof.
-  intros F1 F2 env e0 e1 HR H. cbn [ao_stmt] in H. split_ands. cbn [ren_stmt].
-  now rewrite (map_lift _ _ _ F1 _ _ _ HR), (map_lift _ _ _ F2 _ _ _ HR).
+  intros F1 F2 env e0 e1 HR H. unfao H. split_ands. unfren.
+  rewrite (map_lift _ _ _ F1 _ _ _ HR) by assumption. rewrite (map_lift _ _ _ F2 _ _ _ HR) by assumption. reflexivity.
 Qed.
 Lemma c_SDo b : Pblock b -> Pstmt (SDo b).
-Proof. intros Hb env e0 e1 HR H. apply Pblock_Q in Hb. cbn [ao_stmt] in H. cbn [ren_stmt]. now rewrite (Hb _ _ _ HR H). Qed.
+Proof. intros Hb env e0 e1 HR H. apply Pblock_Q in Hb. unfao H. unfren. now rewrite (Hb _ _ _ HR H). Qed.
 Lemma c_SCall c : Pexpr c -> Pstmt (SCall c).
-Proof. intros Hc env e0 e1 HR H. cbn [ao_stmt] in H. cbn [ren_stmt]. now rewrite (Hc _ _ _ HR H). Qed.
+Proof. intros Hc env e0 e1 HR H. unfao H. unfren. now rewrite (Hc _ _ _ HR H). Qed.
 Lemma c_SCompound op var v : Pexpr var -> Pexpr v -> Pstmt (SCompound op var v).
 Proof.
-  intros H1 H2 env e0 e1 HR H. cbn [ao_stmt] in H. split_ands. cbn [ren_stmt].
-  now rewrite (H1 _ _ _ HR), (H2 _ _ _ HR).
+  intros H1 H2 env e0 e1 HR H. unfao H. split_ands. unfren.
+  rewrite (H1 _ _ _ HR) by assumption. rewrite (H2 _ _ _ HR) by assumption. reflexivity.
 Qed.
 Lemma c_SFunction base fields method f : Pfbody f -> Pstmt (SFunction base fields method f).
 Proof.
-  intros Hf env e0 e1 HR H. cbn [ao_stmt] in H. split_ands. cbn [ren_stmt].
+  intros Hf env e0 e1 HR H. unfao H. split_ands. unfren.
   rewrite (R_occ _ _ _ _ HR) by assumption. now rewrite (Hf _ _ _ _ HR).
 Qed.
 Lemma c_SGenericFor vars es b : Forall Pparam vars -> Forall Pexpr es -> Pblock b -> Pstmt (SGenericFor vars es b).
 Proof.
-  intros Fp Fe Hb env e0 e1 HR H. apply Pblock_Q in Hb. cbn [ao_stmt] in H. split_ands. cbn [ren_stmt].
-  rewrite (params_lift vars Fp _ _ _ HR) by assumption. 2: exact HR.
+  intros Fp Fe Hb env e0 e1 HR H. apply Pblock_Q in Hb. unfao H. split_ands. unfren.
+  rewrite (params_lift vars Fp _ _ _ HR _ _ _ HR) by assumption.
   rewrite (map_lift _ _ _ Fe _ _ _ HR) by assumption.
   rewrite ren_params_names.
   now rewrite (Hb _ _ _ (R_bind_all pick (map param_name vars) _ _ _ HR)).
 Qed.
 Lemma c_SIf bs els : Forall Psbranch bs -> OptP Pblock els -> Pstmt (SIf bs els).
 Proof.
-  intros F He env e0 e1 HR H. apply (OptP_impl _ _ _ Pblock_Q) in He. cbn [ao_stmt] in H. split_ands. cbn [ren_stmt].
-  now rewrite (map_lift _ _ _ F _ _ _ HR), (opt_lift _ _ _ He _ _ _ HR).
+  intros F He env e0 e1 HR H. apply (OptP_impl _ _ _ Pblock_Q) in He. unfao H. split_ands. unfren.
+  rewrite (map_lift _ _ _ F _ _ _ HR) by assumption. rewrite (opt_lift _ _ _ He _ _ _ HR) by assumption. reflexivity.
 Qed.
 Lemma c_SLocal c vars vals : Forall Pparam vars -> Forall Pexpr vals -> Pstmt (SLocal c vars vals).
 Proof.
-  intros Fp Fe env e0 e1 HR H. cbn [ao_stmt] in H. split_ands. cbn [ren_stmt].
-  rewrite (params_lift vars Fp _ _ _ HR) by assumption. 2: exact HR.
+  intros Fp Fe env e0 e1 HR H. unfao H. split_ands. unfren.
+  rewrite (params_lift vars Fp _ _ _ HR _ _ _ HR) by assumption.
   now rewrite (map_lift _ _ _ Fe _ _ _ HR).
 Qed.
 Lemma c_SLocalFunction x f : Pfbody f -> Pstmt (SLocalFunction x f).
 Proof.
-  intros Hf env e0 e1 HR H. cbn [ao_stmt] in H. cbn [ren_stmt].
+  intros Hf env e0 e1 HR H. unfao H. unfren.
   rewrite (Hf _ _ _ _ (R_bind pick _ _ _ x HR)) by assumption.
-  unfold canon_pick at 1 3. destruct (R_length _ _ _ HR) as [-> ->]. reflexivity.
+  now rewrite (cp_len _ _ _ HR (pick env x) x).
 Qed.
 Lemma c_SNumericFor var a b step body :
   Pparam var -> Pexpr a -> Pexpr b -> OptP Pexpr step -> Pblock body -> Pstmt (SNumericFor var a b step body).
 Proof.
-  intros Hv Ha Hb Hs Hbody env e0 e1 HR H. apply Pblock_Q in Hbody. destruct var as [x t]. cbn [ao_stmt] in H. split_ands. cbn [ren_stmt].
-  rewrite (Hv _ _ _ HR), (Ha _ _ _ HR), (Hb _ _ _ HR), (opt_lift _ _ _ Hs _ _ _ HR) by assumption.
+  intros Hv Ha Hb Hs Hbody env e0 e1 HR H. apply Pblock_Q in Hbody. destruct var as [x t]. unfao H. split_ands. unfren.
+  rewrite (Hv _ _ _ HR) by assumption. rewrite (Ha _ _ _ HR) by assumption. rewrite (Hb _ _ _ HR) by assumption. rewrite (opt_lift _ _ _ Hs _ _ _ HR) by assumption.
   rewrite (Hbody _ _ _ (R_bind pick _ _ _ x HR)) by assumption.
-  unfold canon_pick at 1 3. destruct (R_length _ _ _ HR) as [-> ->]. reflexivity.
+  now rewrite (cp_len _ _ _ HR (pick env x) x).
 Qed.
 
 Lemma block_lift ss last : Forall Pstmt ss -> OptP Plast last ->
@@ -389,43 +420,43 @@ Lemma block_lift ss last : Forall Pstmt ss -> OptP Plast last ->
        (seq_env (stmt_env cp) e1 (seq_map (stmt_env pick) (ren_stmt pick) env ss)).
 Proof.
   intros F Hl env e0 e1 HR H1 H2. destruct (seq_lift ss F _ _ _ HR H1) as [E HR'].
-  split; [|exact HR']. cbn [ren_block]. rewrite E.
+  split; [|exact HR']. unfren. rewrite E.
   now rewrite (opt_lift _ _ _ Hl _ _ _ HR').
 Qed.
 
 Lemma c_Block ss last : Forall Pstmt ss -> OptP Plast last -> Pblock (Block ss last).
 Proof.
-  intros F Hl env e0 e1 HR H. cbn [ao_block] in H. split_ands.
+  intros F Hl env e0 e1 HR H. unfao H. split_ands.
   now apply (block_lift ss last F Hl _ _ _ HR).
 Qed.
 
 Lemma c_SRepeat b c : Pblock b -> Pexpr c -> Pstmt (SRepeat b c).
 Proof.
-  intros Hb Hc env e0 e1 HR H. destruct b as [ss last]. cbn [ao_stmt] in H. split_ands.
+  intros Hb Hc env e0 e1 HR H. destruct b as [ss last]. unfao H. split_ands.
   assert (Ha : ao_block pick occ_ok env (Block ss last) = true).
-  { cbn [ao_block]. apply andb_true_iff. split; assumption. }
-  destruct (Hb _ _ _ HR Ha) as [E HR']. cbn [block_env ren_block] in HR'.
-  cbn [ren_block] in E. injection E as E1 E2.
-  cbn [ren_stmt]. rewrite E1, E2. now rewrite (Hc _ _ _ HR').
+  { unfao_goal. apply andb_true_iff. split; assumption. }
+  destruct (Hb _ _ _ HR Ha) as [E HR']. cbn [block_env] in HR'. unfren_in HR'. cbn [block_env] in HR'.
+  unfren_in E. injection E as E1 E2.
+  unfren. rewrite E1, E2. now rewrite (Hc _ _ _ HR').
 Qed.
 
 Lemma c_SWhile c b : Pexpr c -> Pblock b -> Pstmt (SWhile c b).
 Proof.
-  intros Hc Hb env e0 e1 HR H. apply Pblock_Q in Hb. cbn [ao_stmt] in H. split_ands. cbn [ren_stmt].
-  now rewrite (Hc _ _ _ HR), (Hb _ _ _ HR).
+  intros Hc Hb env e0 e1 HR H. apply Pblock_Q in Hb. unfao H. split_ands. unfren.
+  rewrite (Hc _ _ _ HR) by assumption. rewrite (Hb _ _ _ HR) by assumption. reflexivity.
 Qed.
 Lemma c_STypeDecl ex x gen t : OptP Pty gen -> Pty t -> Pstmt (STypeDecl ex x gen t).
 Proof.
-  intros Hg Ht env e0 e1 HR H. cbn [ao_stmt] in H. split_ands. cbn [ren_stmt].
-  now rewrite (opt_lift _ _ _ Hg _ _ _ HR), (Ht _ _ _ HR).
+  intros Hg Ht env e0 e1 HR H. unfao H. split_ands. unfren.
+  rewrite (opt_lift _ _ _ Hg _ _ _ HR) by assumption. rewrite (Ht _ _ _ HR) by assumption. reflexivity.
 Qed.
 Lemma c_STypeFunction ex x f : Pfbody f -> Pstmt (STypeFunction ex x f).
-Proof. intros Hf env e0 e1 HR H. cbn [ao_stmt] in H. cbn [ren_stmt]. now rewrite (Hf _ _ _ _ HR). Qed.
+Proof. intros Hf env e0 e1 HR H. unfao H. unfren. now rewrite (Hf _ _ _ _ HR). Qed.
 
 Lemma c_SBranch c b : Pexpr c -> Pblock b -> Psbranch (SBranch c b).
 Proof.
-  intros Hc Hb env e0 e1 HR H. apply Pblock_Q in Hb. cbn [ao_sbranch] in H. split_ands. cbn [ren_sbranch].
-  now rewrite (Hc _ _ _ HR), (Hb _ _ _ HR).
+  intros Hc Hb env e0 e1 HR H. apply Pblock_Q in Hb. unfao H. split_ands. unfren.
+  rewrite (Hc _ _ _ HR) by assumption. rewrite (Hb _ _ _ HR) by assumption. reflexivity.
 Qed.
 
 Lemma c_LBreak : Plast LBreak.
@@ -434,6 +465,33 @@ Lemma c_LContinue : Plast LContinue.
 Proof. intros env e0 e1 _ _. reflexivity. Qed.
 Lemma c_LReturn es : Forall Pexpr es -> Plast (LReturn es).
 Proof.
-  intros F env e0 e1 HR H. cbn [ao_last] in H. cbn [ren_last]. now rewrite (map_lift _ _ _ F _ _ _ HR).
+  intros F env e0 e1 HR H. unfao H. unfren. now rewrite (map_lift _ _ _ F _ _ _ HR).
 Qed.
 End Main.
+
+Definition main_block (pick : renv -> name -> name) : forall b, Pblock pick b :=
+  ind_block (Pty pick) (Pexpr pick) (Piseg pick) (Pebranch pick) (Pargs pick) (Ptentry pick) (Pfbody pick)
+    (Pparam pick) (Pstmt pick) (Psbranch pick) (Pblock pick) (Plast pick)
+    (c_TyNode pick)
+    (c_leaf pick ENil (fun _ _ => eq_refl)) (c_leaf pick ETrue (fun _ _ => eq_refl))
+    (c_leaf pick EFalse (fun _ _ => eq_refl)) (fun n => c_leaf pick (ENumber n) (fun _ _ => eq_refl))
+    (fun s => c_leaf pick (EString s) (fun _ _ => eq_refl)) (c_EInterp pick)
+    (c_leaf pick EVarArgs (fun _ _ => eq_refl)) (c_EIdent pick) (c_EField pick) (c_EIndex pick) (c_ECall pick)
+    (c_EFunction pick) (c_EIf pick) (c_EParen pick) (c_ETable pick) (c_EUnary pick) (c_EBinary pick)
+    (c_ETypeCast pick) (c_ETypeInst pick)
+    (c_ISStr pick) (c_ISExpr pick) (c_EBranch pick)
+    (c_ATuple pick) (c_AString pick) (c_ATable pick)
+    (c_TField pick) (c_TIndex pick) (c_TValue pick)
+    (c_FBody pick) (c_Param pick)
+    (c_SAssign pick) (c_SDo pick) (c_SCall pick) (c_SCompound pick) (c_SFunction pick) (c_SGenericFor pick)
+    (c_SIf pick) (c_SLocal pick) (c_SLocalFunction pick) (c_SNumericFor pick) (c_SRepeat pick) (c_SWhile pick)
+    (c_STypeDecl pick) (c_STypeFunction pick)
+    (c_SBranch pick) (c_Block pick)
+    (c_LBreak pick) (c_LContinue pick) (c_LReturn pick).
+
+(** Renaming the binders of a program in ANY capture-free way does not change its nameless form. *)
+Theorem nameless_rename_invariant : forall (pick : renv -> name -> name) (b : block),
+  rename_ok pick b = true -> nameless (ren_block pick [] b) = nameless b.
+Proof.
+  intros pick b H. destruct (main_block pick b [] [] [] R_nil H) as [E _]. exact E.
+Qed.
